@@ -65,6 +65,7 @@ static void body() {
   vsched::log_event("ncon_nefc", d->ncon, d->nefc);
   vsched::log_event("nisland", d->nisland, 0);
   mju_threadpool(d, 0);
+  mj_deleteData(d);
 }
 
 int main(int argc, char** argv) {
